@@ -45,6 +45,7 @@ def draw_knobs(rng, cfg):
     k["repeat_rate"] = rng.choice([0.0, 0.1, 0.25])
     k["fine_m2"] = rng.random() < 0.45
     k["ctor_storm"] = rng.random() < 0.25
+    k["callback_storm"] = rng.random() < 0.2
     if cfg.get("pressure"):
         # eviction pressure: every cache (the nine LRUs and the three publicly sized ones) holds one or two
         # entries while each thread keeps presenting fresh keys, so nearly every call is a miss that evicts
@@ -113,6 +114,51 @@ def _thread_op(rng, at, knobs, shared, own, operator, all_ops=None, me=None, slo
         order = list(W.ALL_READS)
         rng.shuffle(order)
         op["obs"] = order
+        return op
+    if knobs.get("callback_storm") and live and rng.random() < 0.5:
+        # callback storm: query mappings whose keys / values make compiled code (the quoter, multidict) call
+        # back into Python in the middle of its work -- Enum members (Enum.__str__), int / float / str
+        # subclasses (query_var), user mappings (UserDict / ChainMap iteration)
+        def exotic(txt):
+            k_ = rng.random()
+            if k_ < 0.3:
+                return {"$": "strenum", "v": txt}
+            if k_ < 0.45:
+                return {"$": "intenum", "v": str(rng.choice([0, 1, 7, 80]))}
+            if k_ < 0.6:
+                return {"$": rng.choice(["intsub", "floatsub"]), "v": rng.choice(["7", "1.5"]) if k_ < 0.53 else "7"}
+            if k_ < 0.8:
+                return {"$": "strsub", "v": txt}
+            return {"$": "istr", "v": txt}
+
+        items = []
+        for _ in range(rng.choice([1, 2, 2, 3])):
+            key = rng.choice(at.qkeys)
+            if rng.random() < 0.3:
+                key = {"$": rng.choice(["strsub", "istr", "strenum"]), "v": key}
+            val = exotic(rng.choice(at.qvals)) if rng.random() < 0.7 else rng.choice(at.qvals)
+            if isinstance(val, dict) and val["$"] == "floatsub":
+                val["v"] = "1.5"
+            items.append([key, val])
+        kind = rng.choice(["dict", "pairs", "md", "userdict", "chainmap", "odict", "mdp"])
+        if kind in ("dict", "userdict", "chainmap", "odict"):
+            seen_, uniq = set(), []
+            for k_, v_ in items:
+                kk = k_ if isinstance(k_, str) else k_["v"]
+                if kk not in seen_:
+                    seen_.add(kk)
+                    uniq.append([k_, v_])
+            items = uniq
+        spec = {"$": kind, "v": items}
+        if kind == "pairs":
+            spec["as"] = rng.choice(["list", "tuple"])
+        if rng.random() < 0.25:
+            op = {"op": "build", "args": [], "kwargs": {"scheme": rng.choice(at.schemes), "host": at.host(rng), "query": spec}}
+        else:
+            op = {"op": rng.choice(["with_query", "extend_query", "update_query", "mod"]), "on": rng.choice(live), "args": [spec]}
+        order = list(W.ALL_READS)
+        rng.shuffle(order)
+        op["obs"] = sorted(set(order[:8] + ["str", "raw_query_string", "query_items"]), key=order.index)
         return op
     if all_ops and rng.random() < knobs.get("repeat_rate", 0.0):
         # re-issue an earlier derivation verbatim: through the LRUs it returns the *same object*
@@ -319,6 +365,7 @@ def conc_run(case):
 
         sc.fine = fine
         sc.probes["runs_with_fine_grained_memo_monitor"] = 1
+    W.CALL_HOOK[0] = sc.call_hook
     sc.install()
     try:
         finished = sc.run([body] * nthreads, timeout=90.0)
@@ -412,7 +459,7 @@ def zy_sweep_seed(seed, cfg):
     force = dict(cfg.get("force") or {})
     rng = C.run_rng(seed ^ 0xABCDEF)
     force.update({"nthreads": 2, "ops_per_thread": rng.choice([1, 1, 2]), "sync_start": rng.random() < 0.6, "operator": rng.random() < 0.15,
-                  "ctor_storm": rng.random() < 0.3,
+                  "ctor_storm": rng.random() < 0.3, "callback_storm": rng.random() < 0.25,
                   "granularity": rng.choice(["line", "line", "ins"]), "fine_m2": False, "long_rate": 0.0, "same_object_bias": 0.95,
                   "repeat_rate": 0.25})
     cfg["force"] = force
